@@ -153,6 +153,19 @@ def check_refine(ctx):
             except SX.Untranslatable as ex:
                 why = str(ex)
         ctx.ob("R11-REFINE", ok, c.file, q, "refinement test", why, call.lineno)
+        # "exactly when": nothing else decides whether the refinement is reached - every other guard dominating the expansion
+        # may only choose between the two expansion calls (newlayer or not), and no early exit precedes the test
+        others = [(a, t) for a, t, lab, e in C.facts_at(g, at) if not (a[0] in ("<=", "<") and "sqrt" in (a[1] + a[2]))]
+        extra = [a for a, t in others if not (any(x in (a[1] + a[2]) for x in ("self.partition.get_depth()", "self.partition.depth")))]
+        test_node = cmp_facts[0][1] if cmp_facts else None
+        early = []
+        if test_node is not None:
+            early = [n for n in g.nodes if n.kind == "stmt" and isinstance(n.ast, (ast.Return, ast.Raise)) and
+                     g.paths_avoiding(g.entry, n, [test_node])]
+        ctx.ob("R11-REFINE", not extra and not early, c.file, q, "the cell is refined exactly when the radius test holds",
+               "no other condition guards the refinement" if not extra and not early else
+               "the refinement also depends on %s: a cell whose radius has dropped to nu*rho^depth is not refined when that fails" % (
+                   [" ".join(x for x in a if x) for a in extra] or ["an early exit at line %s" % early[0].line]), call.lineno)
         # evaluated after the pull count was incremented
         inc = [n for n in g.nodes if n.kind == "stmt" and SH.is_increment(n.ast, "self.pulled_times[self.best_arm]")]
         if inc and cmp_facts:
@@ -264,6 +277,8 @@ def run(ctx):
     ctx.attempt("R11-REFINE", fz, "Zooming.receive_reward", "refinement", check_refine, ctx)
     ctx.attempt("R11-COVER", fz, "Zooming.receive_reward", "hand-over", check_cover, ctx)
     ctx.attempt("R11-COVER", fz, "Zooming.make_active", "activation", check_make_active, ctx)
+    from . import c15
+    c15.import_taint(ctx, ["Zooming"], "R11-TIME", "the arm index and the refinement rule are functions of the reward history alone")
     from . import c03
     tmp = Ctx(ctx.prop, ctx.tier, ctx.seed, model)
     c03.check_sites(tmp)
